@@ -702,7 +702,7 @@ fn c13_lj(t: &[&str]) -> Option<String> {
     let mut mk = |k: &mut crate::exec::Toks| -> Option<packing::LJ2> {
         let (x, y, s, e) = (k.f()?, k.f()?, k.f()?, k.f()?);
         let c = crate::opt::opt_f(k)?;
-        Some(packing::LJ2 { position: Point2::new(x, y), sigma: s, epsilon: e, cutoff: c })
+        Some({ let mut p = packing::LJ2::new(x, y, s); p.epsilon = e; p.cutoff = c; p })
     };
     let a = mk(&mut k)?;
     let b = mk(&mut k)?;
